@@ -328,6 +328,10 @@ func c12Case(c *core.Ctx) *core.Result {
 				undetermined = true
 			}
 			pitch, cs := r.Range(0, 800), []int{0, 0, 5, 120}[r.Intn(4)]
+			if r.Chance(1, 8) {
+				pitch = -r.Range(1, 400) // a negative pitch: again the library's call whether that is a valid request
+				undetermined = true
+			}
 			op, argc = "SetDocGrid", fmt.Sprintf("%s,%d,%d", gt, pitch, cs)
 			call = func() { err = d.SetDocGrid(gt, pitch, cs) }
 			valid = gt != ""
@@ -349,6 +353,9 @@ func c12Case(c *core.Ctx) *core.Result {
 				s.DocGridType, s.DocGridLinePitch, s.DocGridCharSpace = []document.DocGridType{document.DocGridLines, document.DocGridSnapToChars}[r.Intn(2)], r.Range(0, 600), []int{0, 7}[r.Intn(2)]
 				if r.Chance(1, 5) {
 					s.DocGridType = []document.DocGridType{"chars", "linesAndChars", "bogus"}[r.Intn(3)]
+					undetermined = true
+				} else if r.Chance(1, 6) {
+					s.DocGridLinePitch = -r.Range(1, 400)
 					undetermined = true
 				}
 			}
